@@ -126,16 +126,14 @@ def loadDir (modelPath : Str) : Str :=
   let d := dirname modelPath
   if d = [] then DOT else d
 
-/-- `load()`'s base directory as stored since D181 (_io.py:37):
-`os.path.abspath(os.path.dirname(path) or os.curdir)`, `cwdS` = `os.getcwd()` at load time. -/
+/-- `load()`'s base directory (_io.py:37-41, D23 + D181 + D183): made absolute by prefixing the
+load-time working directory `cwdS` = `os.getcwd()`, without lexical normalisation:
+`os.path.join(os.getcwd(), os.path.dirname(path) or os.curdir)`. -/
+def loadBase (cwdS modelPath : Str) : Str := pjoin cwdS (loadDir modelPath)
+
+/-- the derivation between D181 and D183, `os.path.abspath(dirname(path) or ".")`, kept to state
+D183: `abspath` collapses "x/.." lexically, which is wrong when x is a symbolic link -/
 def loadBaseAbs (cwdS modelPath : Str) : Str := abspath cwdS (loadDir modelPath)
-
-/-- the base directory as proposed in D183: made absolute by prefixing the load-time working
-directory, without lexical normalisation: `os.path.join(os.getcwd(), dirname(path) or ".")`. -/
-def loadBaseJoin (cwdS modelPath : Str) : Str := pjoin cwdS (loadDir modelPath)
-
-/-- the base directory `load()` assigns -/
-def loadBase (cwdS modelPath : Str) : Str := loadBaseAbs cwdS modelPath
 
 /-- The derivation before D23 (`os.path.dirname(path)`), kept to state D23. -/
 def loadBaseUnfixed (modelPath : Str) : Str := dirname modelPath
@@ -152,6 +150,7 @@ inductive Node where
   | dir : Node
   | file (ino : Nat) : Node
   | link (target : Str) : Node
+  | other (ino : Nat) : Node   -- FIFO, socket or device node: not a directory, link or regular file
   deriving Repr, DecidableEq
 
 /-- The file system: location -> node (the root is always a directory), inode -> link count and
@@ -207,23 +206,26 @@ def lstat (fs : FS) (fuel : Nat) (cwd : Loc) (p : Str) : Option Node :=
   | some l => fs.get l
   | none => none
 
-/-- `os.stat(p).st_nlink` (None = OSError).  Directories report their own link count
-(`dnlink`; 2 or more on most file systems, which makes check 3 reject them). -/
-def statNlink (fs : FS) (fuel : Nat) (cwd : Loc) (p : Str) : Option Nat :=
+/-- `os.stat(p)` (None = OSError): (`st_nlink`, `S_ISREG(st_mode)`).  Directories report their own
+link count (`dnlink`; 2 or more on most file systems). -/
+def statFile (fs : FS) (fuel : Nat) (cwd : Loc) (p : Str) : Option (Nat × Bool) :=
   match kresolve fs fuel cwd p true with
   | some l =>
     match fs.get l with
-    | some (Node.file i) => some (fs.nlink i)
-    | some Node.dir => some (fs.dnlink l)
+    | some (Node.file i) => some (fs.nlink i, true)
+    | some (Node.other i) => some (fs.nlink i, false)
+    | some Node.dir => some (fs.dnlink l, false)
     | _ => none
   | none => none
 
-/-- `open(p, "rb")`: the inode of the regular file the kernel reaches (None = OSError). -/
-def openFile (fs : FS) (fuel : Nat) (cwd : Loc) (p : Str) : Option Nat :=
+/-- `open(p, "rb")`: the inode the kernel reaches and whether it is a regular file
+(None = OSError: missing, a directory, a loop ...).  A FIFO or device node can be opened. -/
+def openFile (fs : FS) (fuel : Nat) (cwd : Loc) (p : Str) : Option (Nat × Bool) :=
   match kresolve fs fuel cwd p true with
   | some l =>
     match fs.get l with
-    | some (Node.file i) => some i
+    | some (Node.file i) => some (i, true)
+    | some (Node.other i) => some (i, false)
     | _ => none
   | none => none
 
@@ -290,10 +292,11 @@ inductive Verdict where
 def check2 (fs : FS) (kfuel fuel : Nat) (cwdS : Str) (cwd : Loc) (base loc : Str) : Bool :=
   contained (realpath fs kfuel fuel cwdS cwd base) (realpath fs kfuel fuel cwdS cwd (tensorPath base loc))
 
-/-- Check 3 (_core.py:816-825): `nlink > 1` raises; a failing stat counts as 1. -/
+/-- Check 3 (_core.py:816-833, with D182): a failing stat skips it; `nlink > 1` raises; a file that
+is not regular raises. -/
 def check3 (fs : FS) (kfuel fuel : Nat) (cwdS : Str) (cwd : Loc) (base loc : Str) : Bool :=
-  match statNlink fs kfuel cwd (realpath fs kfuel fuel cwdS cwd (tensorPath base loc)) with
-  | some n => decide (n ≤ 1)
+  match statFile fs kfuel cwd (realpath fs kfuel fuel cwdS cwd (tensorPath base loc)) with
+  | some (n, reg) => decide (n ≤ 1) && reg
   | none => true
 
 /-- `ExternalTensor._check_path_containment` (_core.py:760-825): the three layers in order. -/
@@ -304,7 +307,12 @@ def checkContainment (fs : FS) (kfuel fuel : Nat) (cwdS : Str) (cwd : Loc) (base
   else if check3 fs kfuel fuel cwdS cwd base loc = false then Verdict.rej3
   else Verdict.pass
 
-/-- Observable events of a read. -/
+/-- the verdicts on which `_check_path_containment` raises -/
+def rejecting : Verdict → Bool
+  | Verdict.rej1 | Verdict.rej2 | Verdict.rej3 => true
+  | _ => false
+
+/-- Observable events of a call. -/
 inductive Ev where
   | check (v : Verdict)
   | openEv (path : Str) (ino : Option Nat)
@@ -315,51 +323,12 @@ inductive ReadResult where
   | ok (bytes : List Nat)
   deriving Repr, DecidableEq
 
-/-- The read entry points: `numpy()` (901-910), `tobytes()` (912-929), `__array__` (876-881) and
-serialisation to raw bytes (external_data.py:271, through `numpy()`) go through `_load` (827-841);
-`tofile` (931-944) has its own check-then-open. -/
 inductive EntryPoint where
   | numpy | tobytes | array | serializeRaw | tofile
   deriving Repr, DecidableEq
 
-/-- The bytes an entry point produces from the opened file: `_load` maps the whole file and
-`np.frombuffer(raw, offset, count)` raises when the file is shorter than offset+length and mmap
-raises on an empty file (numpy, `__array__`, serialisation); `tobytes` slices `raw[offset:offset+length]`
-(a short file gives a short slice); `tofile` raises OSError when it cannot read `length` bytes. -/
-def produce (ep : EntryPoint) (content : List Nat) (offset length : Nat) : ReadResult :=
-  match ep with
-  | EntryPoint.tobytes =>
-    if content = [] then ReadResult.raised
-    else if content.length < offset + length then ReadResult.raised
-    else ReadResult.ok ((content.drop offset).take length)
-  | EntryPoint.tofile =>
-    if content.length < offset + length then ReadResult.raised
-    else ReadResult.ok ((content.drop offset).take length)
-  | _ =>
-    if content = [] then ReadResult.raised
-    else if content.length < offset + length then ReadResult.raised
-    else ReadResult.ok ((content.drop offset).take length)
-
-/-- A guarded read: `_check_path_containment()` first, then `open(self.path, "rb")`, for every
-entry point (`_load` 828-836, `tofile` 942-944).  Returns the result and the event trace. -/
-def read (fs : FS) (kfuel fuel : Nat) (cwdS : Str) (cwd : Loc) (base loc : Str) (offset length : Nat)
-    (ep : EntryPoint) : ReadResult × List Ev :=
-  let v := checkContainment fs kfuel fuel cwdS cwd base loc
-  match v with
-  | Verdict.rej1 | Verdict.rej2 | Verdict.rej3 => (ReadResult.raised, [Ev.check v])
-  | _ =>
-    let p := tensorPath base loc
-    match openFile fs kfuel cwd p with
-    | none => (ReadResult.raised, [Ev.check v, Ev.openEv p none])
-    | some i => (produce ep (fs.data i) offset length, [Ev.check v, Ev.openEv p (some i)])
-
-end IrVerif.Path
-
-/-! ## Stateful reads: the cached mapping of an `ExternalTensor` -/
-namespace IrVerif.Path
-
 /-- The cached state of an `ExternalTensor`: `raw` = the inode currently memory-mapped
-(`self.raw`, _core.py `_load`), `arr` = `self._array is not None`. -/
+(`self.raw`), `arr` = `self._array is not None`. -/
 structure TState where
   raw : Option Nat
   arr : Bool
@@ -369,60 +338,141 @@ def TState.fresh : TState := { raw := none, arr := false }
 
 def sliceOf (content : List Nat) (offset length : Nat) : List Nat := (content.drop offset).take length
 
-/-- the inode a guarded read opens: none when the check rejects or the open fails -/
-def openedIno (fs : FS) (kfuel fuel : Nat) (cwdS : Str) (cwd : Loc) (base loc : Str) : Option Nat :=
-  match checkContainment fs kfuel fuel cwdS cwd base loc with
-  | Verdict.rej1 | Verdict.rej2 | Verdict.rej3 => none
-  | _ => openFile fs kfuel cwd (tensorPath base loc)
+/-- The primitive statements the read entry points of `ExternalTensor` are made of. -/
+inductive Prim where
+  | check        -- self._check_path_containment()                      (_load 829, tofile 943)
+  | openMap      -- with open(self.path, "rb") as f: self.raw = mmap.mmap(f.fileno(), 0)  (_load 836-841)
+  | frombuffer   -- self._array = np.frombuffer(self.raw, offset=..., count=...)          (_load 859)
+  | openCopy     -- with open(self.path, "rb") as src: copy `length` bytes from `offset`  (tofile 944-)
+  | takeArray    -- the bytes of self._array                      (numpy 909, __array__ 880)
+  | takeRawSlice -- self.raw[offset : offset + length]                  (tobytes 929)
+  | release      -- self.release()                                      (external_data.py:272)
+  deriving Repr, DecidableEq
 
-/-- `ExternalTensor._load` (size > 0): check, open (the events of a guarded read), mmap (raises on
-an empty file, `raw` untouched), `np.frombuffer` (raises when the file is shorter than
-offset+length; `raw` is already set then).  Returns (ok?, events, new state). -/
-def loadStep (fs : FS) (kfuel fuel : Nat) (cwdS : Str) (cwd : Loc) (base loc : Str) (offset length : Nat)
-    (st : TState) : Bool × List Ev × TState :=
-  let ev := (read fs kfuel fuel cwdS cwd base loc offset length EntryPoint.numpy).2
-  match openedIno fs kfuel fuel cwdS cwd base loc with
-  | none => (false, ev, st)
-  | some i =>
-    if fs.data i = [] then (false, ev, st)
-    else if (fs.data i).length < offset + length then (false, ev, { raw := some i, arr := false })
-    else (true, ev, { raw := some i, arr := true })
+/-- Statements of an entry point: a primitive, or one of the two guards on the cached state. -/
+inductive Stmt where
+  | prim (p : Prim)
+  | ifNoArray (body : List Prim)   -- if self._array is None: ...
+  | ifNoRaw (body : List Prim)     -- if self.raw is None: ...
+  deriving Repr
 
-/-- `_load()` followed by the use of the mapping by the caller; `fin` is what the caller does to the
-state afterwards (`release()` for the serialisation path, nothing otherwise). -/
-def loadThen (fs : FS) (kfuel fuel : Nat) (cwdS : Str) (cwd : Loc) (base loc : Str) (offset length : Nat)
-    (st : TState) (fin : TState → TState) : ReadResult × List Ev × TState :=
-  let r := loadStep fs kfuel fuel cwdS cwd base loc offset length st
-  match r.1, r.2.2.raw with
-  | true, some i => (ReadResult.ok (sliceOf (fs.data i) offset length), r.2.1, fin r.2.2)
-  | _, _ => (ReadResult.raised, r.2.1, r.2.2)
+/-- `ExternalTensor._load` (827-873, size > 0): check, open + mmap, frombuffer. -/
+def loadBody : List Prim := [Prim.check, Prim.openMap, Prim.frombuffer]
 
-/-- One CALL of an entry point on a tensor with cached state `st` (numpy 901-910, `__array__`
-876-881, tobytes 912-929, tofile 931-944, serialisation = `numpy().copy()` then `release()`,
-external_data.py:271-272).  A mapped tensor is served from the mapping without any event;
-`tofile` opens the path on every call. -/
+/-- The bodies of the five read entry points, statement by statement:
+`numpy()` (901-910), `__array__` (876-881), `tobytes()` (912-929), `tofile()` (931-1005),
+serialisation to raw bytes = `numpy().copy()` then `release()` (external_data.py:271-272). -/
+def body : EntryPoint → List Stmt
+  | EntryPoint.numpy => [Stmt.ifNoArray loadBody, Stmt.prim Prim.takeArray]
+  | EntryPoint.array => [Stmt.ifNoArray loadBody, Stmt.prim Prim.takeArray]
+  | EntryPoint.tobytes => [Stmt.ifNoRaw loadBody, Stmt.prim Prim.takeRawSlice]
+  | EntryPoint.tofile => [Stmt.prim Prim.check, Stmt.prim Prim.openCopy]
+  | EntryPoint.serializeRaw => [Stmt.ifNoArray loadBody, Stmt.prim Prim.takeArray, Stmt.prim Prim.release]
+
+/-- The environment of a call: the tree, the process and the tensor's immutable fields. -/
+structure Env where
+  fs : FS
+  kfuel : Nat
+  fuel : Nat
+  cwdS : Str
+  cwd : Loc
+  base : Str
+  loc : Str
+  offset : Nat
+  length : Nat
+
+/-- Machine state while a body runs: cached tensor state, events so far (newest last), the value
+to return once the body ends, and whether an exception stopped it. -/
+structure Run where
+  st : TState
+  events : List Ev
+  pending : Option (List Nat)
+  raised : Bool
+
+/-- One primitive.  `openMap` and `openCopy` open the path UNCONDITIONALLY (an open event whatever
+was or was not checked before); `check` raises on a rejecting verdict.  mmap raises on an empty
+or non-regular file (size 0) and leaves `raw` untouched; frombuffer raises when the mapping is
+shorter than offset+length (`raw` stays set); the copy loop raises when it cannot read `length`
+bytes. -/
+def execPrim (e : Env) (r : Run) : Prim → Run
+  | Prim.check =>
+    let v := checkContainment e.fs e.kfuel e.fuel e.cwdS e.cwd e.base e.loc
+    { r with events := r.events ++ [Ev.check v], raised := rejecting v }
+  | Prim.openMap =>
+    let p := tensorPath e.base e.loc
+    match openFile e.fs e.kfuel e.cwd p with
+    | none => { r with events := r.events ++ [Ev.openEv p none], raised := true }
+    | some (i, reg) =>
+      let r' := { r with events := r.events ++ [Ev.openEv p (some i)] }
+      if reg = false ∨ e.fs.data i = [] then { r' with raised := true }
+      else { r' with st := { r'.st with raw := some i } }
+  | Prim.frombuffer =>
+    match r.st.raw with
+    | none => { r with raised := true }
+    | some i =>
+      if (e.fs.data i).length < e.offset + e.length then { r with st := { r.st with arr := false }, raised := true }
+      else { r with st := { r.st with arr := true } }
+  | Prim.openCopy =>
+    let p := tensorPath e.base e.loc
+    match openFile e.fs e.kfuel e.cwd p with
+    | none => { r with events := r.events ++ [Ev.openEv p none], raised := true }
+    | some (i, _) =>
+      let r' := { r with events := r.events ++ [Ev.openEv p (some i)] }
+      if (e.fs.data i).length < e.offset + e.length then { r' with raised := true }
+      else { r' with pending := some (sliceOf (e.fs.data i) e.offset e.length) }
+  | Prim.takeArray =>
+    match r.st.arr, r.st.raw with
+    | true, some i => { r with pending := some (sliceOf (e.fs.data i) e.offset e.length) }
+    | _, _ => { r with raised := true }
+  | Prim.takeRawSlice =>
+    match r.st.raw with
+    | some i => { r with pending := some (sliceOf (e.fs.data i) e.offset e.length) }
+    | none => { r with raised := true }
+  | Prim.release => { r with st := TState.fresh }
+
+/-- run primitives until one raises -/
+def execPrims (e : Env) : Run → List Prim → Run
+  | r, [] => r
+  | r, p :: ps => if r.raised then r else execPrims e (execPrim e r p) ps
+
+def execStmt (e : Env) (r : Run) : Stmt → Run
+  | Stmt.prim p => execPrim e r p
+  | Stmt.ifNoArray b => if r.st.arr = false then execPrims e r b else r
+  | Stmt.ifNoRaw b => if r.st.raw = none then execPrims e r b else r
+
+def execStmts (e : Env) : Run → List Stmt → Run
+  | r, [] => r
+  | r, s :: ss => if r.raised then r else execStmts e (execStmt e r s) ss
+
+/-- run a body from the cached state `st` -/
+def runBody (e : Env) (st : TState) (b : List Stmt) : ReadResult × List Ev × TState :=
+  let r := execStmts e { st := st, events := [], pending := none, raised := false } b
+  (if r.raised then ReadResult.raised
+   else match r.pending with
+     | some bs => ReadResult.ok bs
+     | none => ReadResult.raised,
+   r.events, r.st)
+
+/-- One CALL of an entry point on a tensor whose cached state is `st`. -/
 def call (fs : FS) (kfuel fuel : Nat) (cwdS : Str) (cwd : Loc) (base loc : Str) (offset length : Nat)
     (ep : EntryPoint) (st : TState) : ReadResult × List Ev × TState :=
-  match ep with
-  | EntryPoint.tofile =>
-    let r := read fs kfuel fuel cwdS cwd base loc offset length EntryPoint.tofile
-    (r.1, r.2, st)
-  | EntryPoint.tobytes =>
-    match st.raw with
-    | some i => (ReadResult.ok (sliceOf (fs.data i) offset length), [], st)
-    | none => loadThen fs kfuel fuel cwdS cwd base loc offset length st id
-  | _ =>
-    let fin := fun (s : TState) => if ep = EntryPoint.serializeRaw then TState.fresh else s
-    match st.arr, st.raw with
-    | true, some i => (ReadResult.ok (sliceOf (fs.data i) offset length), [], fin st)
-    | _, _ => loadThen fs kfuel fuel cwdS cwd base loc offset length st fin
+  runBody { fs := fs, kfuel := kfuel, fuel := fuel, cwdS := cwdS, cwd := cwd, base := base, loc := loc,
+            offset := offset, length := length } st (body ep)
+
+/-- A read of a tensor that has nothing cached: result and events. -/
+def read (fs : FS) (kfuel fuel : Nat) (cwdS : Str) (cwd : Loc) (base loc : Str) (offset length : Nat)
+    (ep : EntryPoint) : ReadResult × List Ev :=
+  let r := call fs kfuel fuel cwdS cwd base loc offset length ep TState.fresh
+  (r.1, r.2.1)
 
 end IrVerif.Path
 
+/-! ## Sequences of calls on one tensor -/
 namespace IrVerif.Path
 
 /-- A step in the life of one external tensor: the tree changes under it, `base_dir` is
-re-assigned, `release()`, or an entry point is called. -/
+re-assigned (the setter drops the mapping when the value changes, D184: `base_dir.setter` calls
+`self.release()`), `release()`, or an entry point is called. -/
 inductive Step where
   | setFS (fs : FS)
   | setBase (base : Str)
@@ -446,7 +496,7 @@ structure LogEntry where
 def stepSess (kfuel fuel : Nat) (cwdS : Str) (cwd : Loc) (loc : Str) (offset length : Nat)
     (s : Sess) : Step → Sess × Option LogEntry
   | Step.setFS fs => ({ s with fs := fs }, none)
-  | Step.setBase b => ({ s with base := b }, none)
+  | Step.setBase b => ({ s with base := b, st := if b = s.base then s.st else TState.fresh }, none)
   | Step.release => ({ s with st := TState.fresh }, none)
   | Step.call ep =>
     let r := call s.fs kfuel fuel cwdS cwd s.base loc offset length ep s.st
